@@ -30,10 +30,14 @@ KIND_EXC = {"multi": "FileProvidedByMultipleTargetsError", "unresolved": "Unreso
 RECURSION_FRAMES = {"visitor", "_schedule", "_cached_schedule", "_visit", "dfs_inner", "check_for_circular_dependencies", "inner", "wrapper"}
 
 
+QUICK_BUDGET = {"cases": 4000, "deadline_s": 100, "case_timeout_s": 150, "floors": {"lib_decisions": 3000, "cli_commands": 300, "size_runs": 12}}
+THOROUGH_FACTOR = 10  # thorough = the same workload with 10x the cases (floors scale along)
+
+
 def budget(tier):
-    if tier == "thorough":
-        return {"cases": 40000, "deadline_s": 900, "case_timeout_s": 400, "floors": {"lib_decisions": 30000, "cli_commands": 20000, "size_runs": 60}}
-    return {"cases": 4000, "deadline_s": 100, "case_timeout_s": 150, "floors": {"lib_decisions": 3000, "cli_commands": 300, "size_runs": 12}}
+    from ..core import scaled_budget
+
+    return scaled_budget(QUICK_BUDGET, tier, THOROUGH_FACTOR, noscale=('size_runs',), case_timeout_s=400)
 
 
 SIZES_QUICK = [(s, d) for s in ("chain_fwd", "chain_rev") for d in (50, 300, 600, 1200)] + [("star", 2000), ("layered", 1500), ("chain_fwd", 3000), ("chain_rev", 3000)]
